@@ -12,6 +12,8 @@ S3  reboot handling of a message precedes the handling of that message's entries
     and store changes are reported atomically
 S4  (TTL, period) wiring: offers carry ANNOUNCE_TTL and repeat every CYCLIC_OFFER_DELAY, subscribes carry
     SUBSCRIBE_TTL and repeat every SUBSCRIBE_REFRESH_INTERVAL
+S5  reboot evidence is recognised exactly (the decision table, key and fan-out rules of C07): an unrecognised
+    restart leaves stale state that, with infinite TTLs, never converges
 """
 from __future__ import annotations
 
@@ -124,6 +126,19 @@ def check(run, prog, tier):
     reboot_before_entries(cx, "S3", "discovery")
     reboot_before_entries(cx, "S3", "announcer")
     atomic_notifications(cx, "S3", "stopped/unsubscribed")
+
+    # ------------------------------------------------------------------ S5 reboot evidence is recognised exactly
+    # (a restarted peer that is not recognised keeps stale subscriptions / offers alive for ever with infinite TTLs)
+    from . import C07
+    sub = report.Run("C07", tier, run.seed, quiet=True)
+    C07.check(sub, prog, tier)
+    n7 = 0
+    for o in sub.obs:
+        n7 += 1
+        run.ob("S5", o.construct, o.ok, o.loc, o.msg, o.detail, o.nontrivial)
+    run.floor("S5", n7, 10)
+    run.abstract_cases += sub.abstract_cases
+    run.paths += sub.paths
 
     # ------------------------------------------------------------------ S4 (decided by C10 / C14 rule instances)
     from . import C10, C14
